@@ -320,12 +320,32 @@ class C18(Check):
                         out.fail("C18.eqhash", "types with bit length sets %s and %s compare equal but hash differently" % (sorted(sa), sorted(sb)), "hash:lookalike")
             except NodeError:
                 pass
+            # (2c) every pair of primitive / void types that occur anywhere (incl. the implicit length and tag fields): equal iff
+            # same class and same string form
+            prims = []
+            for k, o in oa:
+                for x in (o, getattr(o, "element_type", None), getattr(o, "length_field_type", None), getattr(o, "tag_field_type", None), getattr(o, "delimiter_header_type", None)):
+                    if isinstance(x, (pydsdl.PrimitiveType, pydsdl.VoidType)) and not any(x is y for y in prims) and len(prims) < 40:
+                        prims.append(x)
+            for x in prims:
+                for y in prims:
+                    same = type(x) is type(y) and str(x) == str(y)
+                    if (x == y) != same:
+                        out.fail("C18.distinct" if not same else "C18.eqhash", "%s %r and %s %r: == says %s" % (type(x).__name__, str(x), type(y).__name__, str(y), x == y), "prim-pair:%s/%s" % (type(x).__name__, type(y).__name__))
+                    elif same and hash(x) != hash(y):
+                        out.fail("C18.eqhash", "%s %r: equal objects with different hashes" % (type(x).__name__, str(x)), "prim-hash")
+            out.stats["primitive_pairs"] += len(prims) ** 2
             # (3) pickle through a second interpreter with another hash seed
             picks = rng.sample(oa, min(len(oa), 14))
             for k, o in picks:
                 try:
+                    before_full = self._full(o, pydsdl)
                     blob = pickle.dumps(o)
+                    if self._full(o, pydsdl) != before_full:
+                        out.fail("C18.pickle", "%s (%s): pickling the object changed it: %s -> %s" % (k, type(o).__name__, before_full, self._full(o, pydsdl)), "pickle-mutates:" + type(o).__name__)
                     local = pickle.loads(blob)
+                    if self._full(local, pydsdl) != before_full:
+                        out.fail("C18.pickle", "%s (%s): the unpickled object differs from the original in its paths / accessor types: %s vs %s" % (k, type(o).__name__, self._full(local, pydsdl), before_full), "pickle-local-full:" + type(o).__name__)
                 except Exception as ex:
                     out.fail("C18.pickle", "%s (%s): pickling raised %s: %s" % (k, type(o).__name__, type(ex).__name__, ex), "pickle-raised:" + type(o).__name__)
                     continue
@@ -376,6 +396,21 @@ class C18(Check):
             for n in nodes:
                 n.close()
         return out
+
+    def _full(self, o, pydsdl):
+        """What describe() leaves out on purpose (absolute paths): value AND type of the path accessors, recursively for nested
+        composites - compared only between an object and its own pickled copy."""
+        if isinstance(o, pydsdl.CompositeType):
+            nested = []
+            if not isinstance(o, pydsdl.ServiceType):
+                for f in o.fields:
+                    t = f.data_type
+                    t = t.element_type if isinstance(t, pydsdl.ArrayType) else t
+                    if isinstance(t, pydsdl.CompositeType):
+                        nested.append([type(t.source_file_path).__name__, str(t.source_file_path)])
+            return [type(o.source_file_path).__name__, str(o.source_file_path), type(o.source_file_path_to_root).__name__, str(o.source_file_path_to_root),
+                    type(o.version).__name__, list(o.version), type(o.fixed_port_id).__name__, nested]
+        return None
 
     def _bls_differ(self, o1, o2) -> bool:
         try:
